@@ -60,3 +60,13 @@ func (b *Balloon) VerifHyperCacheEqual() (bool, error) {
 	}
 	return true, nil
 }
+
+// VerifHyperCache exposes the hyper tree's in-memory cache object (nil once closed).
+func (b *Balloon) VerifHyperCache() interface{} {
+	b.RLock()
+	defer b.RUnlock()
+	if b.hyperTree == nil {
+		return nil
+	}
+	return b.hyperTree.VerifCache()
+}
